@@ -5,7 +5,7 @@ d=/tmp/confirm/$name; rm -rf $d; mkdir -p $d
 git -C /repo worktree add -q --detach $d/wt HEAD || exit 2
 cd $d/wt
 PYTHONPATH=$d/wt timeout 300 /venv/bin/python $src/demo.py > $d/clean.out 2>&1; rc_clean=$?
-git apply $src/patch.diff || { echo "$name: patch does not apply"; cd /; git -C /repo worktree remove --force $d/wt; exit 1; }
+( git apply $src/patch.diff 2>/dev/null || git apply --3way $src/patch.diff ) || { echo "$name: patch does not apply"; cd /; git -C /repo worktree remove --force $d/wt; exit 1; }
 suite=$(PYTHONPATH=$d/wt timeout 900 /venv/bin/python -m pytest -q -p no:cacheprovider 2>&1 | tail -1)
 PYTHONPATH=$d/wt timeout 300 /venv/bin/python $src/demo.py > $d/patched.out 2>&1; rc_patched=$?
 cd /; git -C /repo worktree remove --force $d/wt
